@@ -157,7 +157,9 @@ def generate(rng, tier):
         order_ = [f for f in fields if f["required"]] + [f for f in fields if not f["required"]]
         f0 = order_[0]
         if not f0["alias"] and not f0["alias_from"] and any(k == f0["name"] for k, _v in keys):
-            plan["posonly_kw"] = {"name": f0["name"], "value": tdsl.gen_value(rng, ["leaf"], pool, positions, ("x",))}
+            plan["posonly_kw"] = {"name": f0["name"], "value": tdsl.gen_value(rng, ["leaf"], pool, positions, ("x",)),
+                                  # (under case-insensitive options the keyword may come in another case)
+                                  "upper": rng.random() < 0.5}
             plan["positional"] = max(1, plan["positional"])
     fl = {}
     for path, lk, pid in positions:
@@ -361,7 +363,8 @@ def _run(plan, dfs, collect):
             else:
                 break
     if plan.get("posonly_kw") and pos:
-        kw[plan["posonly_kw"]["name"]] = tdsl.build_value(plan["posonly_kw"]["value"])
+        pk = plan["posonly_kw"]
+        kw[pk["name"].upper() if pk.get("upper") and plan["options"].get("case_insensitive") else pk["name"]] = tdsl.build_value(pk["value"])
     try:
         return ("ok", _canon(_observe(plan, call(pos, kw))))
     except ParseError as e:
